@@ -10,6 +10,7 @@ import (
 	"go/types"
 	"math"
 	"os"
+	"regexp"
 	"sort"
 	"strconv"
 	"strings"
@@ -288,6 +289,11 @@ func (x *Exec) siteEnvCall(st *State, fr *Frame, cc *ssa.CallCommon) *specEnv {
 		func() {
 			defer func() { recover() }()
 			env.vars[fmt.Sprintf("arg%d", k)] = x.val(st, fr, a)
+			// boxedK: the value converted to an interface for argument K at this very call (a boxed slice keeps only
+			// its array in the interface term; its length and offset are read off the operand)
+			if mi, ok := a.(*ssa.MakeInterface); ok {
+				env.vars[fmt.Sprintf("boxed%d", k)] = x.val(st, fr, mi.X)
+			}
 		}()
 	}
 	return env
@@ -639,6 +645,21 @@ func (x *Exec) VerifyFunc(key string) (err error) {
 				goal = tFalse
 			}
 			x.oblige(st, fmt.Sprintf("%s/captures:%s", key, fv.Name()), "closure-frame", cp.Tags, goal, fn.Pos(), "the function literal captures only "+cp.Src+" (captured: "+fv.Name()+")")
+		}
+	}
+	// global frame: the body (and its literals) mentions no package-level variable of its package beyond the listed
+	// ones - process-wide state a function consults or keeps is part of its contract
+	if gp := c.Globals; gp != nil && !x.assumedOnly(gp) {
+		allowed := map[string]bool{}
+		for _, n := range splitLocs(gp.Src) {
+			allowed[n] = true
+		}
+		for _, g := range mentionedGlobals(fn) {
+			goal := tTrue
+			if !allowed[g] {
+				goal = tFalse
+			}
+			x.oblige(st, fmt.Sprintf("%s/globals:%s", key, g), "global-frame", gp.Tags, goal, fn.Pos(), "the function mentions only the package-level variables "+gp.Src+" (mentioned: "+g+")")
 		}
 	}
 	// vacuity guard: the precondition must be satisfiable
@@ -1112,7 +1133,7 @@ func (x *Exec) execAlloc(st *State, fr *Frame, a *ssa.Alloc) {
 			if _, ok := x.sortOf(et); ok {
 				r := st.freshRef("new_" + sanitize(a.Comment))
 				r.Typ = a.Type()
-				st.storeAt("box."+sanitize(et.String()), r, et, st.zeroVal(et), nil)
+				st.storeAt(boxKey(et), r, et, st.zeroVal(et), nil)
 				fr.regs[a] = r
 				return
 			}
@@ -1182,7 +1203,7 @@ func (x *Exec) load(st *State, addr Val, t types.Type) Val {
 		if su, ok := under(pt).(*types.Struct); ok && !isTypeParam(pt) {
 			return st.loadStruct(nil, a, su, pt)
 		}
-		return st.loadAt(nil, "box."+sanitize(pt.String()), a, pt, nil)
+		return st.loadAt(nil, boxKey(pt), a, pt, nil)
 	}
 	panic(unsupported{fmt.Sprintf("load through %T", addr)})
 }
@@ -1251,7 +1272,7 @@ func (x *Exec) store(st *State, fr *Frame, addr Val, v Val, t types.Type, at ssa
 			st.storeStruct(a, su, t, v)
 			return
 		}
-		st.storeAt("box."+sanitize(t.String()), a, t, v, nil)
+		st.storeAt(boxKey(t), a, t, v, nil)
 	default:
 		panic(unsupported{fmt.Sprintf("store through %T", addr)})
 	}
@@ -2406,7 +2427,7 @@ func (x *Exec) addrMods(addr ssa.Value, ms *modset) {
 				}
 				return
 			}
-			ms.keys["box."+sanitize(pt.Elem().String())] = true
+			ms.keys[boxKey(pt.Elem())] = true
 			return
 		}
 		ms.all = true
@@ -2536,4 +2557,39 @@ func (x *Exec) contractMods(c *Contract, ms *modset) {
 			ms.keys["?"+l] = true
 		}
 	}
+}
+
+var anyWord = regexp.MustCompile(`\bany\b`)
+
+// boxKey names the heap component holding boxed variables of type t; the alias `any` and `interface{}` are one type.
+func boxKey(t types.Type) string {
+	return "box." + sanitize(anyWord.ReplaceAllString(t.String(), "interface{}"))
+}
+
+// mentionedGlobals: names of the package-level variables of fn's own package that fn or a function literal inside it
+// mentions, sorted.
+func mentionedGlobals(fn *ssa.Function) []string {
+	seen := map[string]bool{}
+	var walk func(f *ssa.Function)
+	walk = func(f *ssa.Function) {
+		for _, b := range f.Blocks {
+			for _, in := range b.Instrs {
+				for _, op := range in.Operands(nil) {
+					if g, ok := (*op).(*ssa.Global); ok && fn.Pkg != nil && g.Pkg == fn.Pkg {
+						seen[g.Name()] = true
+					}
+				}
+			}
+		}
+		for _, a := range f.AnonFuncs {
+			walk(a)
+		}
+	}
+	walk(fn)
+	var out []string
+	for n := range seen {
+		out = append(out, n)
+	}
+	sort.Strings(out)
+	return out
 }
